@@ -172,8 +172,8 @@ def program_descs(tier):
     for rot in rots:
         for outer in FORMS:
             out.append((outer, None, None, rot))
-            if rot > 2:
-                continue          # condition rotations beyond 2: depth-1 programs only
+            if rot > 1:
+                continue          # condition rotations beyond 1: depth-1 programs only
             for h in range(HOLES[outer]):
                 for inner in inner_forms:
                     out.append((outer, h, inner, rot))
